@@ -275,7 +275,7 @@ def _raise(msg):
 
 # ----------------------------------------------------------------------------
 # EBNF reader (independent of parso's own GrammarParser)
-EBNF_TOK = re.compile(r"[ \t\f]*(?:(#[^\n]*)|([A-Za-z_][A-Za-z_0-9]*)|('[^'\n]*'|\"[^\"\n]*\")|([()\[\]|*+:])|(\n))")
+EBNF_TOK = re.compile(r"[ \t\f]*(?:(#[^\n]*)|([A-Za-z_][A-Za-z_0-9]*)|('(?:[^'\n\\]|\\.)*'|\"(?:[^\"\n\\]|\\.)*\")|([()\[\]|*+:])|(\n))")
 
 
 def ebnf_lex(text):
